@@ -71,20 +71,23 @@ pub struct Matcher<'a> {
     pub lenient: bool,
     /// Optional constraints for the *top-level* concatenation: token index → forced (start,end).
     pub forced: Option<&'a [Option<(usize, usize)>]>,
+    /// Optional constraints for the *top-level* concatenation by content: token index → the texts
+    /// (any one of them) the token must consume, wherever that is
+    pub forced_text: Option<&'a [Option<Vec<Vec<char>>>]>,
     /// deviations switched on by quirk models (see findings.rs)
     pub quirks: Quirks,
 }
 
 #[derive(Clone, Copy, Debug, Default)]
 pub struct Quirks {
-    /// F-ROOT-TREE: a rooted tree wildcard that is first in its concatenation and followed by
-    /// something matches `/` + anything + optional `/`
+    /// F-ROOT-TREE: a rooted tree wildcard that begins the expression (through enclosing branches)
+    /// and is followed by something matches `/` + anything + optional `/`
     pub root_tree: bool,
 }
 
 impl<'a> Matcher<'a> {
     pub fn new(path: &'a [char], lenient: bool) -> Self {
-        Matcher { path, lenient, forced: None, quirks: Quirks::default() }
+        Matcher { path, lenient, forced: None, forced_text: None, quirks: Quirks::default() }
     }
 
     pub fn is_match(&self, e: &Expr) -> bool {
@@ -109,8 +112,18 @@ impl<'a> Matcher<'a> {
             }
             let mut next = Set::new();
             let forced = if top { self.forced.and_then(|f| f.get(i).copied().flatten()) } else { None };
+            let forced_text = if top { self.forced_text.and_then(|f| f.get(i)).and_then(|x| x.as_ref()) } else { None };
             for &p in &cur {
-                if let Some((s, e)) = forced {
+                if let Some(texts) = forced_text {
+                    let ends = self.tok(toks, i, p, n, top, outer_start, outer_end);
+                    for txt in texts {
+                        let e = p + txt.len();
+                        if e <= self.path.len() && self.path[p..e] == txt[..] && ends.contains(&e) {
+                            next.insert(e);
+                        }
+                    }
+                }
+                else if let Some((s, e)) = forced {
                     if p != s {
                         continue;
                     }
@@ -206,13 +219,16 @@ impl<'a> Matcher<'a> {
                     k += 1;
                     // an iteration that ends the repetition may end the expression; one that is
                     // followed by another iteration does not
+                    // (under the quirk model every iteration of a repetition that begins the
+                    // expression is encoded alike)
+                    let body_start = at_start && (k == 1 || self.quirks.root_tree);
                     let fin = if k >= *lo && at_end {
-                        Some(self.seq(body, frontier.clone(), false, at_start && k == 1, true))
+                        Some(self.seq(body, frontier.clone(), false, body_start, true))
                     }
                     else {
                         None
                     };
-                    frontier = self.seq(body, frontier, false, at_start && k == 1, false);
+                    frontier = self.seq(body, frontier, false, body_start, false);
                     if k >= *lo {
                         let before = seen.len();
                         seen.extend(frontier.iter().copied());
@@ -230,7 +246,10 @@ impl<'a> Matcher<'a> {
                 let has_right = !is_last;
                 let first = is_first;
                 let lead = *lead;
-                if self.quirks.root_tree && lead && first && has_right {
+                // (wax uses the deviating encoding only where the concatenation begins the whole
+                // expression — through all enclosing branches —, not for a rooted tree that is first
+                // in a branch further to the right)
+                if self.quirks.root_tree && lead && first && has_right && at_start {
                     // `/` + anything + optional `/`
                     if p < len && path[p] == '/' {
                         for q in p + 1..=len {
